@@ -248,7 +248,8 @@ def handle (st : DState) (line : String) : DState × String :=
       -- which theorem domains the loaded typed-core module lies in
       | some m => "scalarcore=" ++ (if decide (Core.ScalarCore m) then "yes" else "no") ++
                   " storagecore=" ++ (if decide (Core.StorageCore m) then "yes" else "no") ++
-                  " noshadow=" ++ (if decide (Core.NoShadow m) then "yes" else "no")
+                  " noshadow=" ++ (if decide (Core.NoShadow m) then "yes" else "no") ++
+                  " callsresolve=" ++ (if Core.callsResolve m then "yes" else "no")
       | none => "error")
   | ["wfchecks"] => (st, match st.ir with
       -- the structural sufficient condition of C14 (blockLocal, defsDistinct, labelsDistinct, targetsOK, callsOK)
